@@ -55,6 +55,11 @@ static Scn make_scenario(const std::string& fam) {
         for (int i = 0; i < 16; i++) if (i != a && i != b && i != a2 && i != b2) s.prune.push_back(kb(10 + 10 * i));
         for (int i : {a, b, a2, b2}) if (i >= 0 && std::find(s.uni.begin(), s.uni.end(), kb(10 + 10 * i)) == s.uni.end()) s.uni.push_back(kb(10 + 10 * i));
         if (rng() % 2) s.uni.push_back(kb(5 + 10 * (rng() % 16)));
+    } else if (fam == "chain") {      // three consecutive borders P (full) - N (one key) - X under one interior: N is emptied while P splits
+        for (int i = 1; i <= 24; i++) s.init.push_back(kb(10 * i));      // ascending inserts: borders [10..80] [90..160] [170..240]
+        for (int i = 1; i <= 7; i++) s.init.push_back(kb(10 + i));        // P = 10, 11..17, 20..80 : 15 entries
+        int keep = 9 + rng() % 8; for (int i = 9; i <= 16; i++) if (i != keep) s.prune.push_back(kb(10 * i));
+        s.uni.push_back(kb(10 * keep)); s.uni.push_back(kb(rng() % 2 ? 18 : 55)); s.uni.push_back(kb(rng() % 2 ? 170 : 85)); if (rng() % 2) s.uni.push_back(kb(200));
     } else if (fam == "links") {      // layer-0 border that holds only links: 2-3 prefixes with 1-3 keys below each; short keys are absent
         std::vector<std::string> pf = {std::string(8, 'p'), std::string(8, 'q'), std::string(8, 'r')}; int np = 2 + rng() % 2;
         for (int i = 0; i < np; i++) { int n = 1 + rng() % 3; for (int j = 0; j < n; j++) s.init.push_back(pf[i] + kb(10 + 10 * j)); }
@@ -117,11 +122,12 @@ int main(int argc, char** argv) {
                 if (o.kind == "iscan") { o.rtl = rng() % 2; o.max = 0; o.ea = false; o.limit = (rng() % 3 == 0) ? (long)(rng() % 3) : -1; }
             } else if (fam == "ddl") { long y = rng() % 100; o.kind = y < 45 ? "create" : y < 85 ? "delete" : "find"; o.k = k; }
             else if (fam == "links") { long y = rng() % 100; o.kind = y < 15 ? "get" : y < 75 ? "put" : y < 85 ? "uput" : "rem"; o.k = k; o.uniq = o.kind == "uput"; }
+            else if (fam == "chain") { long y = rng() % 100; o.kind = y < 10 ? "get" : y < 55 ? "put" : "rem"; o.k = k; }
             else if (fam == "pair") { long y = rng() % 100; o.kind = y < 15 ? "get" : y < 35 ? "put" : "rem"; o.k = k; }
             else { long y = rng() % 100; o.kind = y < 30 ? "get" : y < 55 ? "put" : y < 70 ? "uput" : "rem"; o.k = k; o.uniq = o.kind == "uput"; }
             o.t = (int)t + 1; prog[t].push_back(o); } }
         // directed templates (every other scenario of the non-DDL families): patterns that random programs rarely produce
-        if (fam != "ddl" && fam != "pair" && nth >= 2 && (sc % 2 == 1 || directed) && !scn.init.empty()) {
+        if (fam != "ddl" && fam != "pair" && fam != "chain" && nth >= 2 && (sc % 2 == 1 || directed) && !scn.init.empty()) {
             auto rd = [&](std::size_t n) { return (std::size_t)(rng() % n); };
             std::vector<std::string> sorted_init = scn.init; std::sort(sorted_init.begin(), sorted_init.end());
             std::string x = scn.uni[rd(scn.uni.size())]; if (std::find(scn.init.begin(), scn.init.end(), x) == scn.init.end()) x = sorted_init[rd(sorted_init.size())];
@@ -136,6 +142,7 @@ int main(int argc, char** argv) {
                 if (pscan + piscan == 0 || z >= pscan + piscan + 20) return mk("get", rd(2) ? x : y);
                 o.kind = (long)(rng() % (pscan + piscan)) < pscan ? "scan" : "iscan"; o.le = scan_endpoint::INF; o.re = scan_endpoint::INF;
                 int shape = (int)rd(4);
+                if ((fam == "layerfull" || fam == "full") && rd(2)) shape = 2;   // the greatest key moves to a new node when the full border splits
                 if (shape == 0) { o.max = 1 + rd(sorted_init.size() < 6 ? sorted_init.size() : 6); }                       // size limited: ends inside a node
                 else if (shape == 1) { o.r = sorted_init[rd(sorted_init.size())]; o.re = rd(2) ? scan_endpoint::INCLUSIVE : scan_endpoint::EXCLUSIVE; }  // bounded on the right
                 else if (shape == 2 && o.kind == "scan") { o.rtl = true; o.max = 1; }
@@ -143,6 +150,7 @@ int main(int argc, char** argv) {
                 if (o.kind == "iscan") { o.rtl = rd(2); o.max = 0; o.limit = rd(3) == 0 ? (long)rd(3) : -1; }
                 return o; };
             int tpl = (int)rd(4);
+            if ((fam == "layerfull" || fam == "full") && rd(2)) tpl = 2;         // insert of a new key into the full border: split under the reader
             for (auto& v : prog) v.clear();
             prog[0].push_back(reader()); if (opsper > 1 && rd(2)) prog[0].push_back(reader());
             if (tpl == 0) { prog[1].push_back(mk("rem", x)); prog[1].push_back(mk("put", y)); }                 // slot reuse by another key
